@@ -29,10 +29,11 @@ const (
 	fBad           // an undecodable message
 	fEOF           // abrupt disconnect on a message boundary
 	fEOFmid        // abrupt disconnect inside a message
+	fBadBody       // a defined command whose body does not decode (an AVP declares a length beyond the message)
 	nFaults
 )
 
-var fNames = []string{"handler-panic", "undecodable-message", "disconnect", "disconnect-mid-message"}
+var fNames = []string{"handler-panic", "undecodable-message", "disconnect", "disconnect-mid-message", "undecodable-body"}
 
 type c15Fault struct {
 	conn, pos, kind int
@@ -120,6 +121,11 @@ func runC15(c *ev.Case, ctx *lib.Ctx, sc c15Scenario, lc *logCapture) {
 					reportsOffered++
 				case fEOF:
 					conns[i].FeedEOF()
+				case fBadBody:
+					b := seqMsg(uint32(p+1), 100)
+					b[20+5], b[20+6], b[20+7] = 0, 0x40, 0 // the AVP claims 16 KiB
+					conns[i].Feed(b)
+					reportsOffered++
 				case fEOFmid:
 					conns[i].Feed(seqMsg(uint32(p+1), 100)[:57])
 					conns[i].FeedEOF()
